@@ -365,6 +365,38 @@ def gen_config_cases(rng, start, transports=('fusedev', 'virtio', 'chan')):
         add(gen_wf(rng, 26), minor=minor, remap=(0, 0), transport=trs[k % len(trs)]); k += 1
     return cases
 
+def gen_virtio_seg_cases(rng, start):
+    """Deterministic block (virtio only): descriptor segmentations that cut the 16-byte reply header and the
+    fixed request structures at every interesting place.  READ/READDIR/READDIRPLUS split the reply writer at 16
+    bytes, WRITE/SETXATTR/IOCTL split the request reader behind their fixed part: a split point strictly inside a
+    descriptor, behind several short descriptors, or exactly on a boundary are different code paths in
+    IoBuffers::split_at / consume.  Random segmentation of a 4 KiB buffer almost never makes the first
+    descriptor shorter than 16 bytes."""
+    cases = []
+    def add(q, rsegs, wsegs):
+        c = make_case(rng, start + len(cases), q['bytes'], q['fs'], q, transport='virtio', cap=sum(wsegs), remap=(0, 0), minor=33)
+        c['rsegs'] = rsegs; c['wsegs'] = wsegs
+        cases.append(c)
+    wpats = [[8, 12, 8192], [8, 8192], [1, 15, 8192], [15, 1, 8192], [16, 8192], [17, 8192], [4, 4, 4, 4, 8192],
+             [0, 16, 8192], [3, 0, 13, 8192], [16 + 8192], [20, 8188], [16, 100, 8092]]
+    for op, kind in ((15, 'read'), (28, 'dirents'), (44, 'dirents'), (1, 'entry'), (3, 'attr'), (22, 'bytes'), (5, 'bytes'), (17, 'statfs')):
+        for wp in wpats:
+            q = gen_wf(rng, op, kind)
+            add(q, [len(q['bytes'])], wp)
+    for op in (16, 21, 39, 42, 12, 6, 35, 49):
+        for _ in range(2):
+            q = gen_wf(rng, op)
+            n = len(q['bytes'])
+            name, sname, tail, kinds = OPS[op]
+            fixed = 40 + (len(enc_struct(sname, q['fields'], COMPAT.get(sname))) if sname else 0)
+            for cuts in ([8], [40], [39], [41], [fixed], [fixed - 1], [fixed + 1], [8, 40, fixed], [40, fixed, fixed + 1], [1, 2, 3]):
+                cs = sorted(set(x for x in cuts if 0 < x < n))
+                segs_ = []; prev = 0
+                for x in cs + [n]:
+                    segs_.append(x - prev); prev = x
+                add(q, segs_, [16, 8192] if rng.random() < 0.5 else [8208])
+    return cases
+
 def gen_badname_cases(rng, start, transports=('fusedev', 'virtio')):
     """Deterministic block: every opcode that carries NUL-terminated strings x every way the strings can be wrong
     (no NUL at all, request ends right after the fixed part, second string unterminated, empty strings, a lone NUL,
